@@ -254,16 +254,14 @@ func c15Apply(p *types.Project, op c15Op) (*types.Project, error) {
 	case "disable":
 		return p.WithServicesDisabled(op.Names...), nil
 	case "select":
-		var o types.DependencyOption
-		switch op.Pol {
-		case "dependents":
-			o = types.IncludeDependents
-		case "ignore":
-			o = types.IgnoreDependencies
-		default:
-			o = types.IncludeDependencies
+		if op.Pol == "none" { // no option at all: the "backward compatibility" default of ForEachService
+			return p.WithSelectedServices(op.Names)
 		}
-		return p.WithSelectedServices(op.Names, o)
+		var opts []types.DependencyOption // "a+b" = several options in call order (the last one decides)
+		for _, o := range strings.Split(op.Pol, "+") {
+			opts = append(opts, c15Opt(o))
+		}
+		return p.WithSelectedServices(op.Names, opts...)
 	case "prune":
 		return p.WithoutUnnecessaryResources(), nil
 	}
@@ -356,6 +354,7 @@ type c15DetStep struct {
 	Func     string `json:"func"`
 	Variants int    `json:"variants"`
 	Diff     string `json:"diff,omitempty"`
+	Mutated  string `json:"mutated,omitempty"` // the receiver is not what it was before the calls
 }
 
 // c15Colliding says whether two services of the description carry the same effective Name (outside the domain of
@@ -389,6 +388,8 @@ func c15RealDet(raw json.RawMessage) any {
 	cur := c15Build(a.Init)
 	steps := []c15DetStep{}
 	for _, op := range a.Ops {
+		snap := types.VerifDeepCopy(cur)
+		snapOK := reflect.DeepEqual(snap, cur)
 		first, err0 := c15Apply(cur, op)
 		ds := c15DetStep{Func: c15Func(op), Variants: 1}
 		var st0 c15State
@@ -410,6 +411,11 @@ func c15RealDet(raw json.RawMessage) any {
 				} else if !reflect.DeepEqual(first, q) {
 					ds.Variants, ds.Diff = 2, "unobserved-fields"
 				}
+			}
+		}
+		if snapOK && !reflect.DeepEqual(snap, cur) { // "returns a new Project instance … and keeps the original Project unchanged"
+			if ds.Mutated = c15Diff(c15Extract(snap), c15Extract(cur)); ds.Mutated == "" {
+				ds.Mutated = "unobserved-fields"
 			}
 		}
 		steps = append(steps, ds)
@@ -515,6 +521,9 @@ func c15JudgeDet(args, real, _ json.RawMessage) *core.Verdict {
 		return core.Disagree("malformed real outcome")
 	}
 	for i, s := range r.Steps {
+		if s.Mutated != "" {
+			return core.Fail("mutates-receiver:types.Project."+s.Func, fmt.Sprintf("step %d: %s changes its receiver (%s)", i, s.Func, s.Mutated))
+		}
 		if s.Variants > 1 {
 			if r.Colliding {
 				s.Diff += ":colliding-names"
